@@ -37,6 +37,16 @@ type caseSpec struct {
 	// panics outlives the (small) stop timeout; it is released by the timeout event.
 	Linger bool `json:"linger,omitempty"`
 
+	// RepCfg: the error reporting channel is set before the system starts ("chan"),
+	// never ("none"), or only after the first panic was handled ("late"). Together
+	// with StdErr this is the reporting configuration of the host program.
+	RepCfg string `json:"rep_cfg,omitempty"`
+	// Mgmt (work part, service worker): module management is enabled. "flap": the module
+	// is disabled while the worker panics and enabled again without a pass in between
+	// (it stays online); "passes": the module is enabled only as a dependency and
+	// management passes run concurrently with a rapidly panicking service worker.
+	Mgmt string `json:"mgmt,omitempty"`
+
 	// StdErr: leave the default stderr error report on (production default) or not.
 	StdErr bool `json:"stderr"`
 
